@@ -373,9 +373,10 @@ Section Sound.
   Lemma St_add_read acc n p s : St acc p s -> St acc (p_add_read n p) s.
   Proof. intros (B64 & PL & PC & PB & K & J & PV). repeat split; assumption. Qed.
 
-  Theorem read_chunk_sound size acc p s d p' s' :
-    St acc p s -> p_at_eof p = false -> read_chunk size p s = Ok (d, p', s') ->
-    (p_at_eof p' = false /\ St (acc ++ d) p' s') \/ (p_at_eof p' = true /\ acc ++ d = body).
+  Lemma read_chunk_once_sound size acc p s d p' s' :
+    St acc p s -> p_at_eof p = false -> read_chunk_once size p s = Ok (d, p', s') ->
+    p_carry p' = [] /\
+    ((p_at_eof p' = false /\ St (acc ++ d) p' s') \/ (p_at_eof p' = true /\ acc ++ d = body)).
   Proof.
     intros HS E H. pose proof HS as (B64 & PL & PC & PB & K & J & PV).
     rewrite read_chunk_eq, E, PL, B64, PC in H.
@@ -387,10 +388,21 @@ Section Sound.
     { unfold length_reached. cbn [p_length p_add_read]. rewrite S2. cbn [p_length p_set_carry]. rewrite PL. reflexivity. }
     rewrite LR in H. cbn [p_at_eof p_add_read] in H.
     destruct F as [(E1 & F)|(E1 & F)].
-    - cbn [p_at_eof p_set_carry] in E1. rewrite E1, E in H. inversion H; subst. left. split; [cbn [p_at_eof p_add_read]; rewrite E1; exact E|].
-      apply St_add_read. exact F.
+    - cbn [p_at_eof p_set_carry] in E1. rewrite E1, E in H. inversion H; subst. split; [exact S5|]. left.
+      split; [cbn [p_at_eof p_add_read]; rewrite E1; exact E|]. apply St_add_read. exact F.
     - rewrite E1 in H. destruct (s_readline 0 s1) as [[l|] s2]; [|discriminate].
-      destruct (list_eqb l CRLF); [|discriminate]. inversion H; subst. right. split; [exact E1|exact F].
+      destruct (list_eqb l CRLF); [|discriminate]. inversion H; subst. split; [exact S5|]. right. split; [exact E1|exact F].
+  Qed.
+
+  Theorem read_chunk_sound size acc p s d p' s' :
+    St acc p s -> p_at_eof p = false -> read_chunk size p s = Ok (d, p', s') ->
+    (p_at_eof p' = false /\ St (acc ++ d) p' s') \/ (p_at_eof p' = true /\ acc ++ d = body).
+  Proof.
+    intros HS E H. unfold read_chunk in H. unfold chunk_budget in H. rewrite read_chunk_n_eq in H.
+    destruct (read_chunk_once size p s) as [[[d1 p1] s1]|e] eqn:R; [|discriminate].
+    destruct (read_chunk_once_sound _ _ _ _ _ _ _ HS E R) as [C G].
+    unfold retry in H. rewrite C in H. cbn [is_nil negb andb] in H. rewrite andb_false_r in H. cbn [andb] in H.
+    inversion H; subst. exact G.
   Qed.
 
   Definition Good (acc : bytes) (p : part) (s : stream) : Prop :=
